@@ -170,6 +170,30 @@ class LayerA(core.Layer):
         return check_case(tuple(case['tuple']), case['reference'], case['query'], case['peaks'], case['reverse'], None)
 
 
+class LadderA(core.Layer):
+    def __init__(self, name, full, tuples, optional=False):
+        self.name, self.optional = name, optional
+        self.cases = list(lattice.ladder_cases(full))
+        self.tuples = tuples
+        self.chunk = 40
+        self.bounds = dict(worlds='indel-ladder worlds of mc.props.c15.ladder_worlds(full=%s)' % full, peaks_per_list=[1, 3],
+                           strands=['+ q', '- mirror(q)'], tuples=[list(t) for t in tuples])
+        self.rule = '%d (world, peak list) cases x 2 strands x %d parameter tuples' % (len(self.cases), len(tuples))
+
+    def nblocks(self):
+        return (len(self.cases) + self.chunk - 1) // self.chunk
+
+    def run_block(self, b, acc):
+        for name, ref, q, peaks in self.cases[b * self.chunk:(b + 1) * self.chunk]:
+            for tup in self.tuples:
+                for rev, qq in ((False, q), (True, sorted(q[-1] - p for p in q))):
+                    acc.seq += 1
+                    check_case(tup, ref, qq, peaks, rev, acc)
+
+    def replay(self, case):
+        return check_case(tuple(case['tuple']), case['reference'], case['query'], case['peaks'], case['reverse'], None)
+
+
 # ------------------------------------------------------------------------------------------------
 # layer B
 
@@ -241,10 +265,10 @@ def layers(tier, seed):
     if tier == 'quick':
         ws = ws[::3]
         sets = settings(1)
-        la = [LayerA('A:NR4,NQ4', 4, 4, TUPLES[:6])]
+        la = [LayerA('A:NR4,NQ4', 4, 4, TUPLES[:6]), LadderA('A:indel-ladders', False, TUPLES[:4])]
     else:
         sets = settings(2)
-        la = [LayerA('A:NR4,NQ4', 4, 4, TUPLES), LayerA('A:NR5,NQ4', 5, 4, TUPLES[:6])]
+        la = [LayerA('A:NR4,NQ4', 4, 4, TUPLES), LadderA('A:indel-ladders', True, TUPLES), LayerA('A:NR5,NQ4', 5, 4, TUPLES[:6])]
     lb = e2e.WorldLayer('B:worlds', ws, judge, modes=('best', 'separate'), extras=sets, keep_result=True, extensions=[sink.Rows],
                         bounds=dict(worlds=len(ws), modes=['best', 'separate'], settings=[list(s) for s in sets]),
                         rule='%d worlds x 2 modes x %d CLI settings (<=%d deviations); returned rows and all candidate rows' % (
